@@ -82,9 +82,9 @@ def _loss(name, fn_name, cls_name, ref, operands, mode="richardson"):
 
 _loss("mse_loss", "mse_loss", "MSELoss", R.mse, lambda a: [X(a["shape"], "normal", name="pred"), X(a["shape"], "normal", name="target")])
 _loss("bce_loss", "binary_cross_entropy", "BCELoss", R.bce,
-      lambda a: [X(a["shape"], "prob", name="pred"), X(a["shape"], a.get("tclass", "prob"), diff=False, name="target")])
+      lambda a: [X(a["shape"], "prob", name="pred"), X(a["shape"], a.get("tclass", "prob"), diff=True, name="target")])
 _loss("bce_with_logits", "binary_cross_entropy_with_logits", "BCEWithLogitsLoss", R.bce_logits,
-      lambda a: [X(a["shape"], a.get("vclass", "moderate"), name="logits"), X(a["shape"], a.get("tclass", "prob"), diff=False, name="target")])
+      lambda a: [X(a["shape"], a.get("vclass", "moderate"), name="logits"), X(a["shape"], a.get("tclass", "prob"), diff=True, name="target")])
 _loss("nll_loss", "nll_loss", "NLLLoss", R.nll,
       lambda a: [X([a["N"], a["C"]], "normal", name="logp"), X([a["N"]], "labels", diff=False, name="target", int_=True)], mode="affine")
 _loss("cross_entropy", "cross_entropy", "CrossEntropyLoss", R.cross_entropy,
